@@ -202,6 +202,9 @@ func (cfg *Config) paramExp(pe *syntax.ParamExp) (string, error) {
 			str = string(rs)
 		} // else, elems are already sliced
 	case pe.Repl != nil:
+		if !set {
+			break // like bash, nothing is applied to an unset variable
+		}
 		elems, err := cfg.replaceElems(pe.Repl, elems)
 		if err != nil {
 			return "", err
@@ -374,11 +377,27 @@ func (cfg *Config) perElemOps(pe *syntax.ParamExp, elems []string) ([]string, er
 
 // replaceElems applies a ${var/pattern/repl} replacement to each element.
 func (cfg *Config) replaceElems(repl *syntax.Replace, elems []string) ([]string, error) {
-	orig, err := Pattern(cfg, repl.Orig)
+	// An unquoted leading '#' or '%' anchors the pattern to the start or the
+	// end of the value, as in ${var/#pattern/repl}.
+	origWord := repl.Orig
+	anchor := byte(0)
+	if origWord != nil && len(origWord.Parts) > 0 && !repl.All {
+		if lit, ok := origWord.Parts[0].(*syntax.Lit); ok && lit.Value != "" &&
+			(lit.Value[0] == '#' || lit.Value[0] == '%') {
+			anchor = lit.Value[0]
+			// Copy the word, as the syntax tree must not be modified.
+			lit2 := *lit
+			lit2.Value = lit.Value[1:]
+			word2 := *origWord
+			word2.Parts = append([]syntax.WordPart{&lit2}, origWord.Parts[1:]...)
+			origWord = &word2
+		}
+	}
+	orig, err := Pattern(cfg, origWord)
 	if err != nil {
 		return nil, err
 	}
-	if orig == "" {
+	if orig == "" && anchor == 0 {
 		return elems, nil // nothing to replace
 	}
 	with, err := Literal(cfg, repl.With)
@@ -391,7 +410,17 @@ func (cfg *Config) replaceElems(repl *syntax.Replace, elems []string) ([]string,
 	}
 	out := make([]string, len(elems))
 	for i, elem := range elems {
-		locs := findAllIndex(orig, elem, n)
+		var locs [][]int
+		switch anchor {
+		case '#': // the longest match at the very start
+			if loc := findAllIndex(orig, elem, 1); len(loc) > 0 && loc[0][0] == 0 {
+				locs = loc
+			}
+		case '%': // the longest match reaching the very end
+			locs = findSuffixIndex(orig, elem)
+		default:
+			locs = findAllIndex(orig, elem, n)
+		}
 		sb := cfg.strBuilder()
 		last := 0
 		for _, loc := range locs {
